@@ -515,6 +515,12 @@ func (b *Buffer) cleanup() {
 			go func() {
 				defer timer.Stop() // just in case, ensure the timer gets stopped
 				defer func() {
+					// hold the cond's locker (always acquired before mutex, as in the cleanup loop) while
+					// re-broadcasting, otherwise the broadcast can fall between the cleanup loop's predicate
+					// and its cond.Wait, and be lost until the next state change
+					b.mutex.Lock()
+					defer b.mutex.Unlock()
+
 					// lock on the mutex, so that the timer removal and broadcast checking / performing is synced
 					mutex.Lock()
 					defer mutex.Unlock()
